@@ -70,7 +70,7 @@ Qed.
 
 Lemma report_items_ok nd qs chs : forallb item_ok (report_items_of nd qs chs) = true.
 Proof.
-  unfold report_items_of. pose proof (items_of_ok nd [] qs) as H. rewrite forallb_forall in *.
+  unfold report_items_of. pose proof (items_of_ok (bump_node nd chs) [] qs) as H. rewrite forallb_forall in *.
   intros it Hit. apply filter_In in Hit. apply H. tauto.
 Qed.
 
